@@ -441,7 +441,109 @@ func eqOperand(ft eng.Fact, isSubject func(ast.Expr) bool) (ast.Expr, bool) {
 	if ay := eng.ArgExpr(info, y); ay != y && isSubject(ay) {
 		return x, true
 	}
+	// a local assigned once from the subject (`m := cfg.Mode; if m == ...`)
+	if lx := resolveLocal(ft.C.F, x); lx != x && isSubject(lx) {
+		return y, true
+	}
+	if ly := resolveLocal(ft.C.F, y); ly != y && isSubject(ly) {
+		return x, true
+	}
 	return nil, false
+}
+
+// lenOf returns X when e is len(X), or a local assigned once from len(X) with no assignment to
+// X reachable after that definition (so the local still is the length wherever it is read).
+func lenOf(f *eng.Func, e ast.Expr) ast.Expr {
+	info := f.Info()
+	if la := eng.LenArg(info, e); la != nil {
+		return la
+	}
+	d := localDef(f, e)
+	if d == nil {
+		return nil
+	}
+	la := eng.LenArg(info, d)
+	if la == nil {
+		return nil
+	}
+	xo := eng.ObjOf(info, la)
+	if xo == nil {
+		return nil
+	}
+	cf := f.CFG()
+	var later []eng.Loc
+	for _, as := range assignsTo(f, func(l ast.Expr) bool { return eng.IsObj(info, l, xo) }) {
+		later = append(later, cf.LocOf(as))
+	}
+	if len(later) > 0 {
+		if r, _ := cf.Reach(cf.LocOf(d), eng.LocSet(later...), eng.ReachOpt{}); r {
+			return nil
+		}
+	}
+	return la
+}
+
+// tripCount: the loop runs exactly hi-lo times (lo == nil: from zero) and its body does not
+// touch the counter: `for i := lo; i < hi; i++`, `for i := 0; i < hi-lo; i++`, `for range hi-lo`,
+// `for i := range hi` (integer range).
+func tripCount(info *eng.Info, st ast.Stmt) (lo, hi ast.Expr, ok bool) {
+	split := func(e ast.Expr) (ast.Expr, ast.Expr) {
+		if b, isB := eng.Unparen(e).(*ast.BinaryExpr); isB && b.Op == token.SUB {
+			return b.Y, b.X
+		}
+		return nil, e
+	}
+	switch lp := st.(type) {
+	case *ast.RangeStmt:
+		tv, has := info.Types[lp.X]
+		if !has {
+			return nil, nil, false
+		}
+		if bt, isBasic := tv.Type.Underlying().(*types.Basic); !isBasic || bt.Info()&types.IsInteger == 0 {
+			return nil, nil, false
+		}
+		lo, hi = split(lp.X)
+		return lo, hi, true
+	case *ast.ForStmt:
+		b, isB := eng.Unparen(lp.Cond).(*ast.BinaryExpr)
+		if lp.Cond == nil || !isB || b.Op != token.LSS {
+			return nil, nil, false
+		}
+		iv := eng.ObjOf(info, b.X)
+		init, isAs := lp.Init.(*ast.AssignStmt)
+		if iv == nil || !isAs || len(init.Lhs) != 1 || len(init.Rhs) != 1 || !eng.IsObj(info, init.Lhs[0], iv) {
+			return nil, nil, false
+		}
+		post, isInc := lp.Post.(*ast.IncDecStmt)
+		if !isInc || post.Tok != token.INC || !eng.IsObj(info, post.X, iv) {
+			return nil, nil, false
+		}
+		touched := false
+		ast.Inspect(lp.Body, func(n ast.Node) bool {
+			switch x := n.(type) {
+			case *ast.AssignStmt:
+				for _, l := range x.Lhs {
+					if eng.IsObj(info, l, iv) {
+						touched = true
+					}
+				}
+			case *ast.IncDecStmt:
+				if eng.IsObj(info, x.X, iv) {
+					touched = true
+				}
+			}
+			return true
+		})
+		if touched {
+			return nil, nil, false
+		}
+		if isConstVal(info, init.Rhs[0], 0) {
+			lo, hi = split(b.Y)
+			return lo, hi, true
+		}
+		return init.Rhs[0], b.Y, true
+	}
+	return nil, nil, false
 }
 
 // countedOver returns X when the loop runs once per element of X: `for range X`,
@@ -769,4 +871,154 @@ func ctxDerives(f *eng.Func, e ast.Expr, root eng.Object, depth int) bool {
 		derived = true
 	}
 	return derived
+}
+
+// iteratorLits resolves a function-typed argument to the literal(s) it can be: the literal
+// itself, a local assigned once from one, or a call of a function of the analysed program
+// every return of which is a literal.
+func iteratorLits(p *eng.Prog, f *eng.Func, e ast.Expr) []*ast.FuncLit {
+	e = resolveLocal(f, eng.Unparen(e))
+	if lit, ok := eng.Unparen(e).(*ast.FuncLit); ok {
+		return []*ast.FuncLit{lit}
+	}
+	call, ok := eng.Unparen(e).(*ast.CallExpr)
+	if !ok {
+		return nil
+	}
+	h := p.Func(eng.CalleeName(f.Info(), call))
+	if h == nil || h.Body == nil {
+		return nil
+	}
+	var out []*ast.FuncLit
+	for _, ret := range h.CFG().Returns() {
+		if len(ret.Results) != 1 {
+			return nil
+		}
+		lit, isLit := eng.Unparen(resolveLocal(h, ret.Results[0])).(*ast.FuncLit)
+		if !isLit {
+			return nil
+		}
+		out = append(out, lit)
+	}
+	return out
+}
+
+// insideInnerBreakable: the unlabelled break b, found inside loop outer, targets a for, range,
+// switch or select nested inside outer (and so does not leave outer).
+func insideInnerBreakable(p *eng.Prog, b *ast.BranchStmt, outer ast.Node) bool {
+	for x := p.Parent(b); x != nil && x != outer; x = p.Parent(x) {
+		switch x.(type) {
+		case *ast.ForStmt, *ast.RangeStmt, *ast.SwitchStmt, *ast.TypeSwitchStmt, *ast.SelectStmt:
+			return true
+		}
+	}
+	return false
+}
+
+// fullTraversal recognises a loop that visits every element of a slice exactly once and
+// returns the slice and a predicate for "e denotes the element of this iteration":
+// `for _, v := range L` / `for i := range L` / `for i := 0; i < len(L); i++` /
+// `for i := len(L)-1; i >= 0; i--` / `range slices.Backward(L)`, `slices.All(L)`, `slices.Values(L)`.
+func fullTraversal(f *eng.Func, st ast.Stmt) (list ast.Expr, isElem func(ast.Expr) bool, body *ast.BlockStmt) {
+	info := f.Info()
+	elemPred := func(list ast.Expr, idx, val eng.Object) func(ast.Expr) bool {
+		var isE func(e ast.Expr, depth int) bool
+		isE = func(e ast.Expr, depth int) bool {
+			e = eng.Unparen(e)
+			if depth > 4 {
+				return false
+			}
+			if val != nil && eng.ObjOf(info, e) == val {
+				if _, isID := e.(*ast.Ident); isID {
+					return true
+				}
+			}
+			if ix, ok := e.(*ast.IndexExpr); ok && idx != nil && eng.SameExpr(info, ix.X, list) && eng.ObjOf(info, ix.Index) == idx {
+				return true
+			}
+			if d := localDef(f, e); d != nil {
+				return isE(d, depth+1)
+			}
+			return false
+		}
+		return func(e ast.Expr) bool { return isE(e, 0) }
+	}
+	objOrNil := func(e ast.Expr) eng.Object {
+		if e == nil {
+			return nil
+		}
+		if id, ok := e.(*ast.Ident); ok && id.Name == "_" {
+			return nil
+		}
+		return eng.ObjOf(info, e)
+	}
+	switch lp := st.(type) {
+	case *ast.RangeStmt:
+		if it, ok := eng.IsCallTo(info, lp.X, "slices.Backward", "slices.All", "slices.Values"); ok && len(it.Args) == 1 {
+			if eng.CalleeName(info, it) == "slices.Values" {
+				return it.Args[0], elemPred(it.Args[0], nil, objOrNil(lp.Key)), lp.Body
+			}
+			return it.Args[0], elemPred(it.Args[0], objOrNil(lp.Key), objOrNil(lp.Value)), lp.Body
+		}
+		if tv, ok := info.Types[lp.X]; ok {
+			if _, isSlice := tv.Type.Underlying().(*types.Slice); isSlice {
+				return lp.X, elemPred(lp.X, objOrNil(lp.Key), objOrNil(lp.Value)), lp.Body
+			}
+		}
+		// for i := range len(L)
+		if lo, hi, ok := tripCount(info, st); ok && lo == nil {
+			if la := eng.LenArg(info, hi); la != nil {
+				return la, elemPred(la, objOrNil(lp.Key), nil), lp.Body
+			}
+		}
+	case *ast.ForStmt:
+		if lo, hi, ok := tripCount(info, st); ok && lo == nil {
+			if la := eng.LenArg(info, hi); la != nil {
+				b := eng.Unparen(lp.Cond).(*ast.BinaryExpr)
+				return la, elemPred(la, eng.ObjOf(info, b.X), nil), lp.Body
+			}
+			return nil, nil, nil
+		}
+		// descending: i := len(L)-1; i >= 0 (or i > -1); i--
+		init, isAs := lp.Init.(*ast.AssignStmt)
+		cond, isB := eng.Unparen(lp.Cond).(*ast.BinaryExpr)
+		post, isDec := lp.Post.(*ast.IncDecStmt)
+		if lp.Cond == nil || !isAs || !isB || !isDec || post.Tok != token.DEC || len(init.Lhs) != 1 || len(init.Rhs) != 1 {
+			return nil, nil, nil
+		}
+		iv := eng.ObjOf(info, init.Lhs[0])
+		if iv == nil || !eng.IsObj(info, post.X, iv) || !eng.IsObj(info, cond.X, iv) {
+			return nil, nil, nil
+		}
+		okCond := (cond.Op == token.GEQ && isConstVal(info, cond.Y, 0)) || (cond.Op == token.GTR && isConstVal(info, cond.Y, -1))
+		start, isSub := eng.Unparen(init.Rhs[0]).(*ast.BinaryExpr)
+		if !okCond || !isSub || start.Op != token.SUB || !isConstVal(info, start.Y, 1) {
+			return nil, nil, nil
+		}
+		la := eng.LenArg(info, start.X)
+		if la == nil {
+			return nil, nil, nil
+		}
+		touched := false
+		ast.Inspect(lp.Body, func(n ast.Node) bool {
+			switch x := n.(type) {
+			case *ast.AssignStmt:
+				for _, l := range x.Lhs {
+					if eng.IsObj(info, l, iv) {
+						touched = true
+					}
+				}
+			case *ast.IncDecStmt:
+				if eng.IsObj(info, x.X, iv) {
+					touched = true
+				}
+			}
+			return true
+		})
+		if touched {
+			return nil, nil, nil
+		}
+		return la, elemPred(la, iv, nil), lp.Body
+	}
+	return nil, nil, nil
 }
